@@ -397,16 +397,32 @@ func VerifC10_Slow() {
 		want = B
 	}
 	zzverif.Assert(len(sn.got) >= want, "C10/stalled-keeps-buffer")
-	j := 0
-	for _, ev := range sn.got {
-		for j < len(t.pubd) && t.pubd[j].Resource() != ev.Resource() {
+	subseq := func() {
+		j := 0
+		for _, ev := range sn.got {
+			for j < len(t.pubd) && t.pubd[j].Resource() != ev.Resource() {
+				j++
+			}
+			zzverif.Assert(j < len(t.pubd), "C10/stalled-subsequence")
 			j++
 		}
-		zzverif.Assert(j < len(t.pubd), "C10/stalled-subsequence")
-		j++
 	}
+	subseq()
 	if m > B {
 		zzverif.Reach("C10/overflow")
+	}
+	// the stalled consumer has caught up and the stream goes on: what it reads overall is
+	// still an in-order subsequence (nothing that was dropped comes back later)
+	if paced && zzverif.NondetInt("resume", 0, 1) == 1 {
+		for i := 0; i < 2; i++ {
+			t.publishMixed()
+			zzverif.Quiesce()
+		}
+		n0 := len(sn.got)
+		sn.drain()
+		zzverif.Assert(len(sn.got) >= n0+2 || variant >= 2, "C10/resumed-complete")
+		subseq()
+		zzverif.Reach("C10/resumed")
 	}
 	zzverif.Reach("C10/done")
 }
